@@ -2,12 +2,14 @@ package c19
 
 import (
 	"context"
+	"errors"
 	"fmt"
 	"strings"
 	"sync"
 	"testing"
 	"time"
 
+	"go.uber.org/multierr"
 	"pgregory.net/rapid"
 
 	"go.opentelemetry.io/collector/component"
@@ -33,6 +35,7 @@ type SScript struct {
 	TimeoutMS int
 	// SinkMutates: the next consumer consumes (empties) the payload it is given.
 	SinkMutates bool
+	Tracer      string // tracer mode (see tracer_test.go)
 	Scrapes     []Scrape
 }
 
@@ -47,6 +50,11 @@ type ScrapeRes struct {
 	Payload []byte
 	Err     string // "" | full | partial
 	Failed  int    // PartialScrapeError.Failed
+	// Wrap: layers put around the error, innermost first: fmt (fmt.Errorf
+	// "%w"), join (errors.Join with another error), multierr (multierr.Append
+	// with another error).  A wrapped PartialScrapeError is still a partial one
+	// (scrapererror.IsPartialScrapeError and the obs wrappers use errors.As).
+	Wrap []string
 }
 
 func genS(t *rapid.T) SScript {
@@ -56,6 +64,7 @@ func genS(t *rapid.T) SScript {
 		TimeoutMS: rapid.SampledFrom([]int{0, 0, 10000}).Draw(t, "timeout"),
 	}
 	s.SinkMutates = rapid.Bool().Draw(t, "sinkmutates")
+	s.Tracer = genTracer(t)
 	o := pgen.Structural()
 	o.MaxRes, o.MaxScope, o.MaxItems, o.MaxAttr, o.ValDepth = 2, 2, 4, 1, 1
 	var next int64 = 1
@@ -67,6 +76,9 @@ func genS(t *rapid.T) SScript {
 			if r.Err == "partial" {
 				r.Failed = rapid.IntRange(0, 9).Draw(t, "failed")
 			}
+			if r.Err != "" {
+				r.Wrap = rapid.SliceOfN(rapid.SampledFrom([]string{"fmt", "join", "multierr"}), 0, 2).Draw(t, "wrap")
+			}
 			sc.Res = append(sc.Res, r)
 		}
 		s.Scrapes = append(s.Scrapes, sc)
@@ -77,6 +89,8 @@ func genS(t *rapid.T) SScript {
 var cS = vt.New("C19", "scraper-controller")
 
 var recvScrType = component.MustNewType("vtscrape")
+
+var errOther = errors.New("another, unrelated scrape problem")
 
 func scraperType(i int) component.Type { return component.MustNewType(fmt.Sprintf("s%d", i)) }
 
@@ -102,6 +116,7 @@ func runSInner(c *vt.C, s *SScript) (nontrivial bool, f *vt.Finding) {
 	set := receivertest.NewNopSettings(recvScrType)
 	set.ID = component.NewIDWithName(recvScrType, "c")
 	set.TelemetrySettings = tel.NewTelemetrySettings()
+	applyTracer(&set.TelemetrySettings, s.Tracer)
 
 	n := len(s.Scrapes)
 	// released[r] is closed when round r may run: every scraper call of round r
@@ -134,13 +149,27 @@ func runSInner(c *vt.C, s *SScript) (nontrivial bool, f *vt.Finding) {
 		if err != nil {
 			panic(err)
 		}
+		var rerr error
 		switch res.Err {
 		case "full":
-			return v, errPlain
+			rerr = errPlain
 		case "partial":
-			return v, scrapererror.NewPartialScrapeError(errPlain, res.Failed)
+			rerr = scrapererror.NewPartialScrapeError(errPlain, res.Failed)
 		}
-		return v, nil
+		for _, w := range res.Wrap {
+			if rerr == nil {
+				break
+			}
+			switch w {
+			case "fmt":
+				rerr = fmt.Errorf("scraping: %w", rerr)
+			case "join":
+				rerr = errors.Join(errOther, rerr)
+			case "multierr":
+				rerr = multierr.Append(rerr, errOther)
+			}
+		}
+		return v, rerr
 	}
 	sink := func(v any) error {
 		mu.Lock()
@@ -248,6 +277,9 @@ func runSInner(c *vt.C, s *SScript) (nontrivial bool, f *vt.Finding) {
 			}
 			if res.Err == "partial" {
 				kinds["scraper-partial"] = true
+				if len(res.Wrap) > 0 {
+					kinds["scraper-partial-wrapped"] = true
+				}
 			} else {
 				kinds["scraper-ok"] = true
 			}
@@ -347,7 +379,7 @@ func runSInner(c *vt.C, s *SScript) (nontrivial bool, f *vt.Finding) {
 	if oc {
 		return true, vt.Failf("scraper/extra-scrape", "a scraper was asked for more rounds than ticks were sent")
 	}
-	c.Class("signal:"+s.Signal, fmt.Sprintf("scrapers:%d", s.Scrapers))
+	c.Class("signal:"+s.Signal, fmt.Sprintf("scrapers:%d", s.Scrapers), "tracer:"+s.Tracer)
 	for kd := range kinds {
 		c.Class("kind:" + kd)
 	}
